@@ -4,7 +4,7 @@
 # and passes without; the package's existing tests pass with the patch as on the clean tree.
 # Writes /verif/seeded/<Cxx>-<v>/{patch.diff,demo,meta.json,confirm.log}.
 id="$1"; v="$2"; pkg="$3"; shift 3
-src=/tmp/seed/$id/out/$v
+src=${SEEDROOT:-/tmp/seed}/$id/out/$v
 wt=/tmp/seedverify/$id-$v
 out=/verif/seeded/$id-$v
 export GOFLAGS=-mod=mod GOPROXY=off; unset GOWORK
